@@ -4,32 +4,32 @@ package main
 
 import (
 	"fmt"
-	"strings"
 	"go/ast"
 	"go/token"
 	"go/types"
 	"sort"
+	"strings"
 )
 
 // effects of a code region
 type Effects struct {
 	extraTypes []*Term // type tags allocated by contracted callees
-	vars   map[types.Object]bool
-	arrays map[string]*arrEffect // heap array name -> effect
-	all    bool                  // unknown call: everything
-	why    []string
+	vars       map[types.Object]bool
+	arrays     map[string]*arrEffect // heap array name -> effect
+	all        bool                  // unknown call: everything
+	why        []string
 }
 
 type arrEffect struct {
-	sort   *Sort
-	bases  map[types.Object]bool // written only at these base variables (pointer/map-valued locals)
-	whole  bool
+	sort      *Sort
+	bases     map[types.Object]bool // written only at these base variables (pointer/map-valued locals)
+	whole     bool
 	freshOnly bool // additionally written on objects allocated after the region started
-	isMap  bool
-	mt     *types.Map
-	fld    *types.Var
-	structT types.Type
-	boxT   types.Type
+	isMap     bool
+	mt        *types.Map
+	fld       *types.Var
+	structT   types.Type
+	boxT      types.Type
 }
 
 func newEffects() *Effects {
